@@ -728,3 +728,282 @@ theorem multiLineM_decodes (zero : Pt α) (t : TF E α) (s : Slice) (m : Mem α)
 
 
 end GeomV.C10.Mem
+
+/-! ## the polygon level: `MultiPolygon.Transform` -/
+namespace GeomV.C10.Mem
+open GeomV GeomV.C10
+variable {E α : Type}
+
+/-- a polygon header read through both levels -/
+def decodePoly (pts : List (List (Pt α))) (paths : List (List Slice)) (p : Slice) : Option (List (List (Pt α))) :=
+  match readArr paths p with
+  | some hs => hs.mapM (readArr pts)
+  | none => none
+
+theorem decodePoly_prefix (pts pts' : List (List (Pt α))) (paths paths' : List (List Slice)) (p : Slice)
+    (x : List (List (Pt α))) (h : decodePoly pts paths p = some x)
+    (h1 : pts'.take pts.length = pts) (h2 : paths'.take paths.length = paths) :
+    decodePoly pts' paths' p = some x := by
+  unfold decodePoly at *
+  cases hr : readArr paths p with
+  | none => simp [hr] at h
+  | some hs =>
+    simp only [hr] at h
+    simp only [readArr_prefix paths paths' p hs hr h2]
+    exact mapM_readArr_prefix pts pts' hs x h h1
+
+theorem mapM_decodePoly_prefix (pts pts' : List (List (Pt α))) (paths paths' : List (List Slice))
+    (ps : List Slice) (xs : List (List (List (Pt α))))
+    (h : ps.mapM (decodePoly pts paths) = some xs)
+    (h1 : pts'.take pts.length = pts) (h2 : paths'.take paths.length = paths) :
+    ps.mapM (decodePoly pts' paths') = some xs := by
+  induction ps generalizing xs with
+  | nil => simpa using h
+  | cons a as ih =>
+    simp only [List.mapM_cons, bind, Option.bind] at h ⊢
+    cases ha : decodePoly pts paths a with
+    | none => simp [ha] at h
+    | some x =>
+      simp only [ha] at h
+      cases h3 : as.mapM (decodePoly pts paths) with
+      | none => simp [h3] at h
+      | some ys =>
+        simp [h3] at h
+        simp [decodePoly_prefix pts pts' paths paths' a x ha h1 h2, ih ys h3, h]
+
+theorem take_prefix_trans {β : Type} (l0 l1 l' : List β) (h1 : l'.take l1.length = l1) (h0 : l1.take l0.length = l0) :
+    l'.take l0.length = l0 := by
+  have hle : l0.length ≤ l1.length := by
+    have := congrArg List.length h0; simp at this; omega
+  calc l'.take l0.length = (l'.take l1.length).take l0.length := by
+        rw [List.take_take, Nat.min_eq_left hle]
+    _ = l0 := by rw [h1, h0]
+
+/-- explicit: what the header returned by a successful `polygonM` reads as -/
+theorem polygon_hdr_decodes (t : TF E α) (s : Slice) (m : Mem α) (hs : List Slice)
+    (rs qss : List (List (Pt α)))
+    (h1 : readArr m.paths s = some hs) (h2 : hs.mapM (readArr m.pts) = some rs) (hq : ringsT t rs = .ok qss) :
+    decodePoly (m.pts ++ qss) (m.paths ++ [hdrs m.pts.length hs]) ⟨m.paths.length, 0, s.len⟩ = some qss := by
+  have hl : hs.length = s.len := readArr_len _ _ _ h1
+  have hr : readArr (m.paths ++ [hdrs m.pts.length hs]) ⟨m.paths.length, 0, s.len⟩ = some (hdrs m.pts.length hs) := by
+    unfold readArr
+    by_cases h0 : s.len = 0
+    · have : hs = [] := List.eq_nil_of_length_eq_zero (by omega)
+      simp [h0, this, hdrs]
+    · simp [h0, hdrs_length, hl]
+      exact List.take_of_length_le (by simp [hdrs_length, hl])
+  unfold decodePoly
+  rw [hr]
+  exact hdrs_read (β := Nat) t m.pts hs rs qss m.pts h2 hq
+
+theorem mpgBody_success (zero : Pt α) (t : TF E α) (s : Slice) (dst i : Nat) (m : Mem α)
+    (srcP dstArr : List Slice) (p : Slice) (hs : List Slice) (rs qss : List (List (Pt α)))
+    (hsp : m.polys[s.addr]? = some srcP) (hp : srcP[s.off + i]? = some p)
+    (h1 : readArr m.paths p = some hs) (h2 : hs.mapM (readArr m.pts) = some rs)
+    (hq : ringsT t rs = .ok qss) (hd : m.polys[dst]? = some dstArr) (hi : i < dstArr.length) :
+    mpgBody zero t s dst i m =
+      ({ m with pts := m.pts ++ qss, paths := m.paths ++ [hdrs m.pts.length hs],
+                polys := m.polys.set dst (dstArr.set i ⟨m.paths.length, 0, p.len⟩) }, .ok ()) := by
+  have hget : aGet (E := E) m.polys s.addr (s.off + i) = .ok p := by simp [aGet, hsp, hp]
+  have hset : aSet (E := E) m.polys dst i ⟨m.paths.length, 0, p.len⟩ =
+      .ok (m.polys.set dst (dstArr.set i ⟨m.paths.length, 0, p.len⟩)) := by simp [aSet, hd, hi]
+  have key := polygonM_success zero t p m hs rs qss h1 h2 hq
+  simp [mpgBody, hget, key, hset]
+
+theorem mpgBody_failure (zero : Pt α) (t : TF E α) (s : Slice) (dst i : Nat) (m : Mem α)
+    (srcP : List Slice) (p : Slice) (hs : List Slice) (rs : List (List (Pt α))) (e : Fail E)
+    (hsp : m.polys[s.addr]? = some srcP) (hp : srcP[s.off + i]? = some p)
+    (h1 : readArr m.paths p = some hs) (h2 : hs.mapM (readArr m.pts) = some rs)
+    (hq : ringsT t rs = .error e) :
+    (mpgBody zero t s dst i m).2 = .error e := by
+  have hget : aGet (E := E) m.polys s.addr (s.off + i) = .ok p := by simp [aGet, hsp, hp]
+  have key := polygonM_failure zero t p m hs rs e h1 h2 hq
+  simp only [mpgBody, hget]
+  generalize polygonM zero t p m = res at key ⊢
+  obtain ⟨m2, rr⟩ := res
+  cases rr with
+  | error e' => simp at key; simp [key]
+  | ok u => simp at key
+
+/-- the functional loop of `MultiPolygon.Transform`, one step -/
+theorem multiPolyLoop_cons (t : TF E α) (p : List (List (Pt α))) (ps : List (List (List (Pt α)))) :
+    multiPolyLoop t (p :: ps) =
+      match ringsT t p with
+      | .error e => .error e
+      | .ok q =>
+        match multiPolyLoop t ps with
+        | .error e => .error e
+        | .ok r => .ok (q :: r) := by
+  simp only [multiPolyLoop, polygonT]
+  cases ringsT t p with
+  | error e => rfl
+  | ok q => simp [asPoly]; rfl
+
+theorem decodePoly_some (pts : List (List (Pt α))) (paths : List (List Slice)) (p : Slice) (x : List (List (Pt α)))
+    (h : decodePoly pts paths p = some x) : ∃ hs, readArr paths p = some hs ∧ hs.mapM (readArr pts) = some x := by
+  unfold decodePoly at h
+  cases hr : readArr paths p with
+  | none => simp [hr] at h
+  | some hs => exact ⟨hs, rfl, by simpa [hr] using h⟩
+
+theorem loopN_polys (zero : Pt α) (t : TF E α) (s : Slice) (dst : Nat) :
+    ∀ (n i : Nat) (m : Mem α) (srcP dstArr : List Slice) (pss : List (List (List (Pt α)))),
+      m.polys[s.addr]? = some srcP → m.polys[dst]? = some dstArr → s.addr ≠ dst →
+      i + n ≤ dstArr.length → s.off + i + n ≤ srcP.length →
+      ((srcP.drop (s.off + i)).take n).mapM (decodePoly m.pts m.paths) = some pss →
+      (∀ qsss, multiPolyLoop t pss = .ok qsss →
+        ∃ (m' : Mem α) (newH : List Slice),
+          loopN (mpgBody zero t s dst) i n m = (m', .ok ()) ∧
+          m'.polys = m.polys.set dst (dstArr.take i ++ newH ++ dstArr.drop (i + n)) ∧
+          newH.length = n ∧
+          newH.mapM (decodePoly m'.pts m'.paths) = some qsss ∧
+          m'.pts.take m.pts.length = m.pts ∧ m'.paths.take m.paths.length = m.paths) ∧
+      (∀ e, multiPolyLoop t pss = .error e → (loopN (mpgBody zero t s dst) i n m).2 = .error e) := by
+  intro n
+  induction n with
+  | zero =>
+    intro i m srcP dstArr pss hs hd hne hi hsrc hps
+    simp at hps; subst hps
+    refine ⟨?_, ?_⟩
+    · intro qsss hq
+      simp [multiPolyLoop] at hq; subst hq
+      refine ⟨m, [], by simp [loopN], ?_, rfl, by simp, by simp, by simp⟩
+      simp [set_self_of_getElem? _ _ _ hd]
+    · intro e he; simp [multiPolyLoop] at he
+  | succ n ih =>
+    intro i m srcP dstArr pss hs hd hne hi hsrc hps
+    have hk : s.off + i < srcP.length := by omega
+    have hp : srcP[s.off + i]? = some (srcP[s.off + i]'hk) := List.getElem?_eq_getElem hk
+    rw [drop_take_succ srcP (s.off + i) n _ hp] at hps
+    generalize hpdef : srcP[s.off + i]'hk = p at hp hps
+    simp only [List.mapM_cons, bind, Option.bind] at hps
+    cases hdp : decodePoly m.pts m.paths p with
+    | none => simp [hdp] at hps
+    | some rs =>
+      simp only [hdp] at hps
+      cases hrest : ((srcP.drop (s.off + i + 1)).take n).mapM (decodePoly m.pts m.paths) with
+      | none => simp [hrest] at hps
+      | some pss' =>
+        simp [hrest] at hps; subst hps
+        obtain ⟨hsl, h1, h2⟩ := decodePoly_some m.pts m.paths p rs hdp
+        have hil : i < dstArr.length := by omega
+        rw [multiPolyLoop_cons]
+        cases hq : ringsT t rs with
+        | error e0 =>
+          refine ⟨fun qsss h => by simp at h, ?_⟩
+          intro e he
+          simp at he; subst he
+          have hb := mpgBody_failure zero t s dst i m srcP p hsl rs e0 hs hp h1 h2 hq
+          unfold loopN
+          generalize mpgBody zero t s dst i m = res at hb ⊢
+          obtain ⟨m', rr⟩ := res
+          cases rr with
+          | error e' => simp at hb; simp [hb]
+          | ok u => simp at hb
+        | ok qss =>
+          have hb := mpgBody_success zero t s dst i m srcP dstArr p hsl rs qss hs hp h1 h2 hq hd hil
+          have hdlt : dst < m.polys.length := (List.getElem?_eq_some_iff.mp hd).1
+          have hs1 : (m.polys.set dst (dstArr.set i ⟨m.paths.length, 0, p.len⟩))[s.addr]? = some srcP := by
+            rw [List.getElem?_set_ne (Ne.symm hne)]; exact hs
+          have hd1 : (m.polys.set dst (dstArr.set i ⟨m.paths.length, 0, p.len⟩))[dst]? =
+              some (dstArr.set i ⟨m.paths.length, 0, p.len⟩) := by
+            simp [List.getElem?_set, hdlt]
+          have hrest1 : ((srcP.drop (s.off + (i + 1))).take n).mapM
+              (decodePoly (m.pts ++ qss) (m.paths ++ [hdrs m.pts.length hsl])) = some pss' := by
+            have e : s.off + (i + 1) = s.off + i + 1 := by omega
+            rw [e]
+            exact mapM_decodePoly_prefix m.pts (m.pts ++ qss) m.paths (m.paths ++ [hdrs m.pts.length hsl]) _ pss'
+              hrest (by simp) (by simp)
+          have ih' := ih (i + 1)
+            { m with pts := m.pts ++ qss, paths := m.paths ++ [hdrs m.pts.length hsl],
+                     polys := m.polys.set dst (dstArr.set i ⟨m.paths.length, 0, p.len⟩) }
+            srcP (dstArr.set i ⟨m.paths.length, 0, p.len⟩) pss' hs1 hd1 hne (by simp; omega) (by omega) hrest1
+          refine ⟨?_, ?_⟩
+          · intro qsss hqq
+            cases hr2 : multiPolyLoop t pss' with
+            | error e => simp [hr2] at hqq
+            | ok qsss' =>
+              simp [hr2] at hqq; subst hqq
+              obtain ⟨m', newH, hl, hpolys, hlen, hdec, hpts, hpaths⟩ := ih'.1 qsss' hr2
+              simp only at hpolys hpts hpaths
+              refine ⟨m', ⟨m.paths.length, 0, p.len⟩ :: newH, ?_, ?_, by simp [hlen], ?_, ?_, ?_⟩
+              · simp only [loopN, hb]; exact hl
+              · rw [hpolys]
+                simp only [List.set_set, take_set_succ dstArr i _ hil,
+                  drop_set_gt dstArr i (i + 1 + n) _ (by omega)]
+                have e1 : i + 1 + n = i + (n + 1) := by omega
+                simp [e1, List.append_assoc]
+              · have hhead := polygon_hdr_decodes t p m hsl rs qss h1 h2 hq
+                have hhead' := decodePoly_prefix _ m'.pts _ m'.paths _ qss hhead hpts hpaths
+                simp only [List.mapM_cons, bind, Option.bind, hhead', hdec]
+                rfl
+              · exact take_prefix_trans m.pts (m.pts ++ qss) m'.pts hpts (by simp)
+              · exact take_prefix_trans m.paths (m.paths ++ [hdrs m.pts.length hsl]) m'.paths hpaths (by simp)
+          · intro e he
+            cases hr2 : multiPolyLoop t pss' with
+            | error e' =>
+              simp [hr2] at he; subst he
+              have := ih'.2 e' hr2
+              simp only [loopN, hb]
+              exact this
+            | ok r2 => simp [hr2] at he
+
+theorem multiPolyM_refines (zero : Pt α) (t : TF E α) (s : Slice) (m : Mem α) (ps : List Slice)
+    (pss : List (List (List (Pt α))))
+    (h1 : readArr m.polys s = some ps) (h2 : ps.mapM (decodePoly m.pts m.paths) = some pss) :
+    (∀ qsss, multiPolyLoop t pss = .ok qsss →
+      ∃ hd ps', (multiPolyM zero t s m).2 = .ok hd ∧ readArr (multiPolyM zero t s m).1.polys hd = some ps' ∧
+        ps'.mapM (decodePoly (multiPolyM zero t s m).1.pts (multiPolyM zero t s m).1.paths) = some qsss) ∧
+    (∀ e, multiPolyLoop t pss = .error e → (multiPolyM zero t s m).2 = .error e) := by
+  unfold readArr at h1
+  by_cases h0 : s.len = 0
+  · simp [h0] at h1; subst h1
+    simp at h2; subst h2
+    refine ⟨?_, ?_⟩
+    · intro qsss hq
+      simp [multiPolyLoop] at hq; subst hq
+      refine ⟨⟨m.polys.length, 0, 0⟩, [], ?_, ?_, ?_⟩
+      · simp [multiPolyM, aAlloc, h0, loopN]
+      · simp [readArr]
+      · simp
+    · intro e he; simp [multiPolyLoop] at he
+  · simp only [h0, if_false] at h1
+    cases hsrc : m.polys[s.addr]? with
+    | none => simp [hsrc] at h1
+    | some srcP =>
+      simp only [hsrc] at h1
+      by_cases hle : s.off + s.len ≤ srcP.length
+      · simp only [hle, if_true] at h1
+        cases h1
+        have hslt : s.addr < m.polys.length := (List.getElem?_eq_some_iff.mp hsrc).1
+        have hs1 : (m.polys ++ [List.replicate s.len zeroSlice])[s.addr]? = some srcP := by
+          rw [List.getElem?_append_left hslt]; exact hsrc
+        have hd1 : (m.polys ++ [List.replicate s.len zeroSlice])[m.polys.length]? =
+            some (List.replicate s.len zeroSlice) := by simp
+        have key := loopN_polys zero t s m.polys.length s.len 0
+          { m with polys := m.polys ++ [List.replicate s.len zeroSlice] } srcP (List.replicate s.len zeroSlice) pss
+          hs1 hd1 (by omega) (by simp) (by omega) (by simpa using h2)
+        simp only [Nat.add_zero, Nat.zero_add] at key
+        refine ⟨?_, ?_⟩
+        · intro qsss hq
+          obtain ⟨m', newH, hl, hpolys, hlen, hdec, _, _⟩ := key.1 qsss hq
+          refine ⟨⟨m.polys.length, 0, s.len⟩, newH, ?_, ?_, ?_⟩
+          · simp only [multiPolyM, aAlloc]; rw [hl]
+          · simp only [multiPolyM, aAlloc]; rw [hl]
+            simp only [hpolys]
+            simp [readArr, h0, set_append_last, hlen]
+            exact List.take_of_length_le (by omega)
+          · simp only [multiPolyM, aAlloc]; rw [hl]
+            exact hdec
+        · intro e he
+          have := key.2 e he
+          simp only [multiPolyM, aAlloc]
+          generalize loopN (mpgBody zero t s m.polys.length) 0 s.len
+            { m with polys := m.polys ++ [List.replicate s.len zeroSlice] } = res at this ⊢
+          obtain ⟨m2, rr⟩ := res
+          cases rr with
+          | error e' => simp at this; simp [this]
+          | ok u => simp at this
+      · simp [hle] at h1
+
+end GeomV.C10.Mem
